@@ -47,7 +47,7 @@ def main():
         res[name] = ok
         return ok, o
 
-    sh("git checkout -- . && git clean -fdq -e target", wt)
+    sh("git checkout -- . && git clean -fdq -e target -e deliver", wt)
     rc, o = sh("git apply --check %s" % patch, wt)
     if rc != 0:
         # the worktree is at the commit the agent saw; the patch must apply there
@@ -68,7 +68,7 @@ def main():
         sh("git checkout -- .", wt)
         step("demo-without-patch-passes", "cargo test -p %s --offline --test seed_demo 2>&1" % pkg, True)
         os.remove(os.path.join(wt, tdir, "seed_demo.rs"))
-    sh("git checkout -- . && git clean -fdq -e target", wt)
+    sh("git checkout -- . && git clean -fdq -e target -e deliver", wt)
     os.makedirs(dest, exist_ok=True)
     shutil.copy(patch, os.path.join(dest, "patch.diff"))
     for f in os.listdir(out):
